@@ -23,7 +23,8 @@ ANCHORS = (
     "acryo.loader._loader:SubtomogramLoader.construct_loading_tasks",
 )
 REQUIRED_COUNTERS = ("anchor:TemplateMaskCache.get", "anchor:TemplateMaskCache.set",
-                     "anchor:LoaderBase.construct_landscape", "injected_yields", "perturbed_runs")
+                     "anchor:LoaderBase.construct_landscape", "injected_yields", "perturbed_runs",
+                     "history_orders")
 RULE = ("schedule cases = operation in {asnumpy, average, average_split, align (ZNCC/NCC/PCC/FSC, +-rotations, one "
         "shared model), align_multi_templates, score (one Backend per task), construct_landscape, apply, classify, "
         "LoaderGroup.align} run once under the synchronous scheduler (reference) and under perturbed schedules: threaded "
